@@ -98,11 +98,36 @@ def write_if_changed(path: Path, text: str) -> bool:
     return True
 
 
-def hygiene_scan() -> list[str]:
-    """No Admitted/admit/Axiom/Parameter/... anywhere in the development;
-    Variable/Hypothesis only inside a Section."""
+REQ_RE = re.compile(r'^\s*(?:From\s+NL\s+)?Require\s+(?:Import\s+|Export\s+)?([^.]*(?:\.[A-Za-z0-9_]+)*)\s*\.\s*$', re.M)
+
+
+def dep_closure(rel_files: list[str]) -> list[Path]:
+    """The .v files (under theories/) a list of property files transitively Require (NL.* only)."""
+    todo = [THEORIES / f for f in rel_files]
+    seen: dict[Path, None] = {}
+    while todo:
+        p = todo.pop()
+        if p in seen or not p.exists():
+            continue
+        seen[p] = None
+        txt = p.read_text()
+        for m in re.finditer(r'Require\s+(?:Import\s+|Export\s+)?([A-Za-z0-9_.\s]+?)\.\s', txt):
+            for name in m.group(1).split():
+                name = name.strip()
+                if name.startswith('NL.'):
+                    name = name[3:]
+                cand = THEORIES / (name.replace('.', '/') + '.v')
+                if cand.exists():
+                    todo.append(cand)
+    return list(seen)
+
+
+def hygiene_scan(rel_files: Optional[list[str]] = None) -> list[str]:
+    """No Admitted/admit/Axiom/Parameter/... in the development (all of it, or the dependency
+    closure of the given property files); Variable/Hypothesis only inside a Section."""
     bad = []
-    for p in THEORIES.rglob('*.v'):
+    files = list(THEORIES.rglob('*.v')) if rel_files is None else dep_closure(rel_files)
+    for p in files:
         depth = 0
         in_comment = 0
         for n, line in enumerate(p.read_text().splitlines(), 1):
